@@ -371,8 +371,9 @@ class BstrField(CborField):
             return None
 
     def m2i(self, pkt, x):
-        if isinstance(x, int):
-            # bytes() of an integer is a zero-filled string, not a conversion
+        if isinstance(x, (int, list, tuple)):
+            # bytes() of an integer is a zero-filled string and of an
+            # integer list is the octet for each, neither is a conversion
             return None
         try:
             return bytes(x)
